@@ -131,19 +131,20 @@ type labHandshakeExtra struct {
 }
 
 type wireClient struct {
-	srvID     discover.NodeID
-	addr      string
-	key       *ecdsa.PrivateKey
-	tap       *tapConn
-	rw        p2p.MsgReadWriter
-	msgs      chan p2p.Msg // everything the node sends after the encryption handshake
-	closed    chan struct{}
-	status    *statusData
-	onMsg     func(m p2p.Msg) // sub-protocol messages go here instead of the channel
-	td        uint64          // total difficulty (height) announced in the Status; 0 = 1
-	head      types.Hash
-	nodeAlloc uint64 // bytes allocated in the process while only the node was working on the last input
-	r         *rand.Rand
+	srvID       discover.NodeID
+	addr        string
+	key         *ecdsa.PrivateKey
+	tap         *tapConn
+	rw          p2p.MsgReadWriter
+	msgs        chan p2p.Msg // everything the node sends after the encryption handshake
+	closed      chan struct{}
+	status      *statusData
+	answerPings bool            // answer the node's keep-alive pings
+	onMsg       func(m p2p.Msg) // sub-protocol messages go here instead of the channel
+	td          uint64          // total difficulty (height) announced in the Status; 0 = 1
+	head        types.Hash
+	nodeAlloc   uint64 // bytes allocated in the process while only the node was working on the last input
+	r           *rand.Rand
 }
 
 func (c *wireClient) startReader() {
@@ -158,6 +159,10 @@ func (c *wireClient) startReader() {
 			}
 			data, _ := io.ReadAll(m.Payload)
 			m.Payload = bytes.NewReader(data)
+			if m.Code == 2 && c.answerPings {
+				go c.sendRaw(3, []byte{0xC0}) // keep the session alive as a real remote does
+				continue
+			}
 			if c.onMsg != nil && m.Code >= 16 {
 				c.onMsg(m)
 				continue
